@@ -232,8 +232,17 @@ class State:
 
 
 # ---------------------------------------------------------------------------
+class Opaque(Exception):
+    """the value of an unknown call is used as (part of) a string: the whole expression is unknown"""
+
+    def __init__(self, top):
+        self.top = top
+
+
 class Interp:
-    def __init__(self, fnode, sink):
+    def __init__(self, fnode, sink, helpers=None):
+        self.helpers = helpers or {}
+        self.inlining = 0
         self.fn = fnode
         self.sink = sink
         self.atoms = Atoms()
@@ -277,6 +286,12 @@ class Interp:
 
     # ---- expressions -----------------------------------------------------
     def ev(self, e, st, stmt):
+        try:
+            return self.ev1(e, st, stmt)
+        except Opaque as o:
+            return o.top
+
+    def ev1(self, e, st, stmt):
         if isinstance(e, ast.Constant):
             if isinstance(e.value, str):
                 return const_str(e.value)
@@ -341,6 +356,8 @@ class Interp:
             return v
         if isinstance(v, I):
             return digits_str()
+        if isinstance(v, Top) and v.what.startswith("call "):
+            raise Opaque(v)
         return S()
 
     def derived(self, new: S, stmt, inputs, attempt):
@@ -422,7 +439,7 @@ class Interp:
         if isinstance(x, Tup) and isinstance(e.slice, ast.Constant) and type(e.slice.value) is int and -len(x.items) <= e.slice.value < len(x.items):
             return x.items[e.slice.value]
         if not isinstance(x, S):
-            return Top("subscript")
+            return x if isinstance(x, Top) and x.what.startswith("call ") else Top("subscript")
         sl = e.slice
         if not isinstance(sl, ast.Slice):
             one = frozenset([(1, ())])
@@ -544,7 +561,20 @@ class Interp:
                 if meth in ("lstrip",):
                     return self.derived(S(x.may, x.last, False, x.ub, None), stmt, [x], None)
                 return self.derived(S(), stmt, [x], None)
-        # unknown call: value unknown; a string result would carry no facts
+        # a one-expression helper of the same module is evaluated on the abstract arguments
+        h = self.helpers.get(d) if isinstance(e.func, ast.Name) else None
+        if h is not None and self.inlining < 3 and not e.keywords:
+            body = [b for b in h.body if not (isinstance(b, ast.Expr) and isinstance(b.value, ast.Constant))]
+            hp = [a.arg for a in h.args.posonlyargs + h.args.args]
+            if len(body) == 1 and isinstance(body[0], ast.Return) and body[0].value is not None and len(hp) == len(args) \
+                    and not h.args.vararg and not h.args.kwarg and not h.args.kwonlyargs:
+                sub = State({k: self.ev(a, st, stmt) for k, a in zip(hp, args)})
+                self.inlining += 1
+                try:
+                    return self.ev(body[0].value, sub, stmt)
+                finally:
+                    self.inlining -= 1
+        # unknown call: value unknown; if it ends up in the returned name the analysis gives up (exit 2)
         return Top("call " + (d or "?"))
 
     def sub_any(self, x, stmt):
@@ -584,7 +614,7 @@ class Interp:
         x = self.ev(args[2], st, stmt)
         r = self.ev(args[1], st, stmt)
         if not isinstance(x, S):
-            return S()
+            return self.as_str(x)
         if not isinstance(r, S) or len(args) > 3 or e.keywords:
             return self.derived(S(), stmt, [x], None)
         rx = self.regex_of(args[0], st)
@@ -822,9 +852,9 @@ class Interp:
 
 
 # ---------------------------------------------------------------------------
-def analyse(fnode, sink):
+def analyse(fnode, sink, helpers=None):
     """run the interpreter and report the five facts"""
-    it = Interp(fnode, sink)
+    it = Interp(fnode, sink, helpers)
     for n in fnode.body:
         if isinstance(n, (ast.FunctionDef, ast.AsyncFunctionDef, ast.ClassDef)):
             _err("nested definitions are outside the fragment")
@@ -850,6 +880,9 @@ def analyse(fnode, sink):
                        else "the name can contain a path separator, so the result can leave the input's directory")
                 failures["dir"].setdefault(norm(rnode), (rnode, "`%s`: %s" % (norm(rnode), why)))
         else:
+            inner = val.name if isinstance(val, JoinV) else val
+            if isinstance(inner, Top) and inner.what.startswith("call "):
+                _err("the result of `%s(...)`, which this analysis cannot interpret, flows into the returned name (outside the fragment)" % inner.what[5:])
             _err("returned value `%s` is outside the fragment (not a name string / os.path.join(dir, name))" % norm(rnode)[:80])
         f = it.facts(name)
         for fact in ("chars", "tail", "len"):
@@ -949,8 +982,8 @@ class Sink:
             self.ctx.check(rule, instance, ok, self.func, construct, message, node=node, detail=detail)
 
 
-def core(sink, fnode):
-    it, failures, npaths = analyse(fnode, sink)
+def core(sink, fnode, helpers=None):
+    it, failures, npaths = analyse(fnode, sink, helpers)
     for fact in FACTS:
         bad = failures[fact]
         if not bad:
@@ -969,14 +1002,15 @@ def run(ctx):
     ctx.analysed(f)
     ctx.require(m.imports.get("re") == ("re", None) and m.imports.get("os") == ("os", None), "`re`/`os` are not the standard modules in misc.py")
     sink = Sink(ctx, f)
-    it, failures, npaths = core(sink, f.node)
+    helpers = {k: v.node for k, v in m.functions.items() if "." not in k and k != f.name}
+    it, failures, npaths = core(sink, f.node, helpers)
     for k, v in it.stats.items():
         ctx.count(k, v)
     ctx.count("return_paths", npaths)
-    ctx.floor("return_paths", 4)
+    ctx.floor("return_paths", 8)
     ctx.floor("char_cleaners", 1)
     ctx.floor("tail_cleaners", 1)
-    ctx.floor("cuts", 1)
+    ctx.floor("cuts", 2)
     ctx.floor("guards", 1)
     ctx.floor("uniq_loops", 1)
     ctx.assume("`replace` is a single character (documented as 'replacement character', default '_'); "
@@ -986,7 +1020,7 @@ def run(ctx):
         ctx.note("DEL (0x7f) and C1 controls are not in the cleaned class; the property's reserved set as fixed in DESIGN does not include them (noted, not flagged)")
     ctx.note("not decided: reserved DOS device names (CON, PRN, ...), an empty resulting name, os.path.isfile race between test and use")
     if ctx.tier == "thorough":
-        _thorough(ctx, f.node, sink)
+        _thorough(ctx, f.node, sink, helpers)
 
 
 # ---------------------------------------------------------------------------
@@ -1106,7 +1140,7 @@ def _mutants(fnode):
     return out
 
 
-def _thorough(ctx, fnode, base_sink):
+def _thorough(ctx, fnode, base_sink, helpers=None):
     base = set(base_sink.failed)
     killed = total = silent = btotal = 0
     survivors, noisy = [], []
@@ -1114,7 +1148,7 @@ def _thorough(ctx, fnode, base_sink):
         s = Sink()
         err = None
         try:
-            core(s, t)
+            core(s, t, helpers)
             fired = any(k not in base for k in s.failed)
         except AnalysisError as e:
             fired, err = False, str(e)
